@@ -501,7 +501,7 @@ HARNESSES = [
                     '(C13 directed_undo_pack / undo_fault on the blob wrapper over FileStorage and on FileStorage with a blob directory)',
             symbolic='history selectors, final step selector (incl. the failing undo of the two newest transactions)', bounds='programs of 5-10 steps; real scratch directory',
             oracle='blob revision model + directory listing', code=['BlobStorage.undo (dirty_oids)', 'BlobStorage.tpc_abort', '_blob_tpc_abort'],
-            quick=dict(timeout=150, shards=shards(kind=['proxy', 'file'])), thorough=dict(timeout=300, shards=shards(kind=['proxy', 'file']))),
+            quick=dict(timeout=400, shards=shards(kind=['proxy', 'file'])), thorough=dict(timeout=700, shards=shards(kind=['proxy', 'file']))),
     Harness('blob_refused_finish', _blob_foreign_finish,
             decides='a refused tpc_finish (foreign transaction; callback raising before the commit point) followed by the abort leaves no blob '
                     'file of the transaction behind and a usable storage (same harness as C13 foreign_finish)',
